@@ -15,6 +15,7 @@ ASSUMPTIONS = [
     "for descendants of an attached child the statement is silent about inherited prefixes: either the previous "
     "binding or the inherited one is accepted and adopted by the model",
     "bulk helpers fix_nsmap / set_nsmap are checked against the frame condition only",
+    "beyond the BFS only the parametric families of scale_work (six prefixes x subsets on one parent-child pair, deep chains)",
 ]
 
 PREFIXES = ["p", "q"]
